@@ -145,7 +145,7 @@ func (rq *C04Req) body() ([]byte, bool) {
 	case "gzip-bomb":
 		var buf bytes.Buffer
 		zw := gzip.NewWriter(&buf)
-		zw.Write(make([]byte, 48<<20)) // decompresses beyond the 32 MiB payload cap
+		zw.Write(make([]byte, 3<<20)) // decompresses beyond the 1 MiB payload cap of the harness node
 		zw.Close()
 		return buf.Bytes(), false
 	case "garbage":
